@@ -56,6 +56,25 @@ def boundary_cases():
             out.append(({"type": "record", "name": "EqMix", "fields": [{"name": "a", "type": {"type": "array", "items": branches}},
                                                                         {"name": "u", "type": branches}]},
                         [{"a": list(xs), "u": xs[0]}], {}, False))
+    # typed arrays (array.array) of either floating type code under float and double items, alone and nested
+    import array as _array
+    for items in ("float", "double"):
+        for code in ("f", "d"):
+            arr = _array.array(code, [1.5, -2.25, 0.0, 1024.0])
+            out.append(({"type": "array", "items": items}, [arr], {}, False))
+            out.append(({"type": "record", "name": "Col", "fields": [{"name": "xs", "type": {"type": "array", "items": items}}, {"name": "n", "type": "int"}]},
+                        [{"xs": arr, "n": 7}], {}, False))
+            out.append(({"type": "map", "values": {"type": "array", "items": items}}, [{"k": arr}], {}, False))
+    # (name, value) notation where two named branches share the last component of their names
+    geo = {"type": "record", "name": "geo.Point", "fields": [{"name": "x", "type": "int"}, {"name": "y", "type": "int"}, {"name": "srid", "type": "int", "default": 4326}]}
+    plain = {"type": "record", "name": "Point", "fields": [{"name": "x", "type": "int"}, {"name": "y", "type": "int"}]}
+    ecol = {"type": "enum", "name": "ui.Color", "symbols": ["RED", "GREEN"]}
+    ecol0 = {"type": "enum", "name": "Color", "symbols": ["GREEN", "RED", "BLUE"]}
+    for u, vals in (([geo, plain, "null"], [("Point", {"x": 1, "y": 2}), ("geo.Point", {"x": 1, "y": 2}), None]),
+                    ([plain, geo, "null"], [("Point", {"x": 1, "y": 2}), ("geo.Point", {"x": 1, "y": 2, "srid": 1})]),
+                    ([ecol, ecol0], [("Color", "RED"), ("ui.Color", "RED"), ("Color", "BLUE")])):
+        out.append((u, vals, {}, False))
+        out.append(({"type": "array", "items": u}, [list(vals)], {}, False))
     for x in gen.F64_POOL:
         out.append(("double", [x], {}, False))
     for x in gen.F32_EXACT:
